@@ -126,6 +126,17 @@ func mutate(rt *rapid.T, ctx *Ctx, t *model.Type, b []byte, labels map[string]in
 				rec := protowire.AppendTag(nil, fd.Number(), protowire.BytesType)
 				rec = append(rec, rapid.SampledFrom(hostileVarints).Draw(rt, "hostilelen")...)
 				rec = append(rec, rapid.SliceOfN(rapid.Byte(), 0, 6).Draw(rt, "body")...)
+				if rapid.Bool().Draw(rt, "ingroup") {
+					// the same attack inside an (unknown) group, possibly nested
+					labels["mut:hostile-length-inside-group"]++
+					for g, n := 0, rapid.IntRange(1, 3).Draw(rt, "gdepth"); g < n; g++ {
+						num := protowire.Number(rapid.IntRange(1, 2000).Draw(rt, "gnum"))
+						rec = append(protowire.AppendTag(nil, num, protowire.StartGroupType), rec...)
+						if rapid.Bool().Draw(rt, "closed") {
+							rec = protowire.AppendTag(rec, num, protowire.EndGroupType)
+						}
+					}
+				}
 				p := rapid.IntRange(0, len(b)).Draw(rt, "pos")
 				b = append(append(append([]byte{}, b[:p]...), rec...), b[p:]...)
 			}
